@@ -340,6 +340,10 @@ func (p *Prelude) use(vc *VC, fun string) {
 	if !ok {
 		return
 	}
+	if vc.symsUsed == nil {
+		vc.symsUsed = map[string]bool{}
+	}
+	vc.symsUsed[fun] = true
 	if p.used[vc] == nil {
 		p.used[vc] = map[string]bool{}
 	}
